@@ -257,7 +257,8 @@ def term_key(f, **kw):
 # ------------------------------------------------------------------ values
 def enc_val(v):
     """v: python-side value description:
-       bool | int | Fraction | str | ('bv', w, n) | ('arr', dflt, [(k, v), ...]) | ('u', sort, k)"""
+       bool | int | Fraction | str | ('bv', w, n) | ('arr', idxtok, dflt, [(k, v), ...]) | ('u', sort, k)
+       where idxtok is the wire encoding of the index sort (e.g. "I", "V 2")"""
     if isinstance(v, bool):
         return "b 1" if v else "b 0"
     if isinstance(v, int):
@@ -269,8 +270,8 @@ def enc_val(v):
     if v[0] == "bv":
         return "v %d %d" % (v[1], v[2])
     if v[0] == "arr":
-        return "a %s %d%s" % (enc_val(v[1]), len(v[2]),
-                              "".join(" %s %s" % (enc_val(k), enc_val(x)) for k, x in v[2]))
+        return "a %s %s %d%s" % (v[1], enc_val(v[2]), len(v[3]),
+                                 "".join(" %s %s" % (enc_val(k), enc_val(x)) for k, x in v[3]))
     if v[0] == "u":
         return "u %s %d" % (hexs(v[1]), v[2])
     raise ValueError(v)
@@ -296,9 +297,12 @@ def dec_val(tk):
         s = unhex(tk.next())
         return ("u", s, tk.nat())
     if t == "a":
+        i0 = tk.i
+        dec_type(tk)
+        idx = " ".join(tk.t[i0:tk.i])
         d = dec_val(tk)
         k = tk.nat()
-        return ("arr", d, [(dec_val(tk), dec_val(tk)) for _ in range(k)])
+        return ("arr", idx, d, [(dec_val(tk), dec_val(tk)) for _ in range(k)])
     raise ValueError("value expected: %r" % t)
 
 
